@@ -118,6 +118,7 @@ func TestThrottlerReplay(t *testing.T) {
 }
 
 func replayThrottler(n uint, q uint64, beh []tstep, out *vh.Result) (dv *vh.Divergence) {
+	defer recoverAsDivergence("throttler", len(beh), &dv)
 	resource := new(int)
 	th := throttler.NewThrottler(n, resource, throttler.WithMaxQueueLen(q))
 	calls := map[int]*tcall{}
